@@ -344,6 +344,14 @@ def run(line):
         p = build(r.term())
         s = p.pretty(P.PrettyOptions(simplify_instantiations=simp, notations=frozendict(nots)))
         return ' '.join(['S'] + [str(ord(c)) for c in s])
+    if op == 'PRI':
+        simp = r.next() == '1'
+        ids = [r.int() for _ in range(r.int())]
+        nots = {NOTS[i].definition: NOTS[i] for i in ids}
+        p = build(r.term())
+        d = {k: build(v) for k, v in r.delta()}
+        s = p.instantiate(d).pretty(P.PrettyOptions(simplify_instantiations=simp, notations=frozendict(nots)))
+        return ' '.join(['S'] + [str(ord(c)) for c in s])
     if op == 'COV':
         return '?'
     return 'BAD'
